@@ -45,3 +45,18 @@ def _timed_check(self, *a, **k):
         SOLVER_STATS["unknown"] += 1
     return r
 _z3.Solver.check = _timed_check
+
+# --- logging: formatting a record is never the subject of an obligation; do it untraced and never let it fail ---------------
+import logging as _logging
+from crosshair.tracers import NoTracing as _NoTracing
+_orig_getMessage = _logging.LogRecord.getMessage
+def _safe_getMessage(self):
+    with _NoTracing():
+        try:
+            return _orig_getMessage(self)
+        except BaseException:  # noqa: symbolic values cannot be rendered while not tracing
+            try:
+                return str(self.msg)
+            except BaseException:  # noqa
+                return "<unprintable log record>"
+_logging.LogRecord.getMessage = _safe_getMessage
